@@ -326,3 +326,29 @@ pub fn k_builder_address_twice_efi64() {
     let off = check_tag_at(bytes, off, &i_efi, 9, 12);
     assert!(off == 56);
 }
+
+// information request with an ODD number of requests (size 12, padded to 16) followed by
+// another tag: every tag and the end tag must still start at a multiple of 8 and the header
+// must load (padding residue 4)
+#[kani::proof]
+#[kani::unwind(18)]
+pub fn k_builder_inforeq_odd_then_entry() {
+    let (arch, anum) = any_arch();
+    let reqs = [MbiTagTypeId::new(kani::any())];
+    let tag = InformationRequestHeaderTag::new(HeaderTagFlag::Required, &reqs);
+    let mut img = [0u8; 12];
+    img.copy_from_slice(&tag.as_bytes()[..12]);
+    let entry = EntryAddressHeaderTag::new(HeaderTagFlag::Required, kani::any());
+    let mut eimg = [0u8; 12];
+    eimg.copy_from_slice(&entry.as_bytes()[..12]);
+    let built = Builder::new(arch).information_request_tag(tag).entry_tag(entry).build();
+    let br = built.as_bytes();
+    let bytes: &[u8] = &br;
+    check_fixed_part(bytes, anum, 32);
+    let off = check_tag_at(bytes, 16, &img, 1, 12);
+    assert!(off == 32);
+    let off = check_tag_at(bytes, off, &eimg, 3, 12);
+    assert!(off == 48);
+    check_end_tag(bytes, off);
+    assert!(iter_count(bytes) == 3);
+}
